@@ -3673,7 +3673,7 @@ theorem SessInv.begin {imgOk : ImgRule} {C D W H : Nat} {V : Bool} {Z : ZCodec} 
     simp only [i1]
     refine ⟨_, rfl, ?_, ?_, ⟨_, rfl⟩, rfl, rfl, rfl, rfl, rfl⟩
     · refine SessInv.inside (wpre := wpre) (wH := wH) (fd := (chunkKind wpre == tyFDAT)) ?_ h2 hjp ?_ rfl ?_ hvp
-      · exact Inside.init h2.good h2.fdf hcap (chunkKind_eq wpre) rfl i2 i3 rfl hidx rfl (by simp) hrl
+      · exact Inside.init h2.good h2.fdf hcap (chunkKind_eq wpre) rfl i2 i3 rfl rfl rfl (by simp) hrl
       · exact (hco.static hstp).same ⟨rfl, rfl, rfl, rfl⟩
       · intro f _ h0; rw [hcp] at h0; omega
     · exact Nat.mul_pos i2 i3
@@ -3707,9 +3707,9 @@ theorem SessInv.new {imgOk : ImgRule} {C D W H : Nat} {V : Bool} (Z : ZCodec) {w
       by_cases hc' : f.x = 0 ∧ f.y = 0 ∧ f.w = w.width ∧ f.h = w.height
       · exact hc'
       · simp [hc'] at hrect
-    have hcap : 5 ≤ max (min chunkCap size) 5 := Nat.le_max_right _ _
-    obtain ⟨i1, i2, i3⟩ := hj.frameInfo (max (min chunkCap size) 5) [] (chunkKind w)
-    obtain ⟨wH, h1, h2, h3, h4, h5⟩ := writeHeader_rel (max (min chunkCap size) 5) (chunkKind w) hj.good
+    have hcap : 5 ≤ max (min chunkCap size) streamMinBuffer := Nat.le_max_right _ _
+    obtain ⟨i1, i2, i3⟩ := hj.frameInfo (max (min chunkCap size) streamMinBuffer) [] (chunkKind w)
+    obtain ⟨wH, h1, h2, h3, h4, h5⟩ := writeHeader_rel (max (min chunkCap size) streamMinBuffer) (chunkKind w) hj.good
       (fun f hf => (hj.fctl_facts hf).2.2.1)
     simp only [CW.new, h1, i1]
     refine ⟨_, rfl, ?_, rfl⟩
@@ -4736,31 +4736,21 @@ def toyZf : ZCodec :=
       | _ => []
     row := fun _ _ cur => 0 :: cur }
 
-/-- N12 (open, found by the fault sweep; the model predicts the same results at the same offsets 91..107 as
-    the crate): two frames on a 2x1 canvas through `into_stream_writer_with_size(4)`, the second frame set to
-    1x1.  Half a row, `flush` — the sink fails (once) while the full 5-byte chunk buffer is written: `Err(io)`,
-    the buffer stays full; the rest of the row: `Err(WriteZero)` from the zlib encoder's pending output, but
-    `index = line_len` and `to_write = 0` are already recorded; `flush` again: the chunk goes out,
-    `WrittenTooMuch`; the next `write` starts the narrower frame and slices
-    `curr_buf[..line_len][index..]` with the stale index: panic (encoder.rs:1739). -/
-def runN12 : ProgRun :=
-  runProg toyCodec toyZf (animatedCfg { width := 2, height := 1 } 2 0) { writeFailAt := some 91, writeOnce := true } []
+/-- repaired N12 (c724280: `new_frame` resets the row index): two frames on a 2x1 canvas through
+    `into_stream_writer_with_size(4)`, the second frame set to 1x1.  Half a row, `flush` — the sink fails (once)
+    while the full 5-byte chunk buffer is written: `Err(io)`, the buffer stays full; the rest of the row:
+    `Err(WriteZero)` from the zlib encoder's pending output, with `index = line_len` and `to_write = 0` already
+    recorded; `flush` again: the chunk goes out, `WrittenTooMuch`; the next `write` starts the narrower frame
+    at the beginning of its row — formerly a panic at `curr_buf[..line_len][index..]` for the offsets 91..107. -/
+def runN12At (n : Nat) : ProgRun :=
+  runProg toyCodec toyZf (animatedCfg { width := 2, height := 1 } 2 0) { writeFailAt := some n, writeOnce := true } []
     (.intoStream 4 [.set (.dim 1 1), .write [1], .flush, .write [2], .flush, .write [3]] .finish)
+
+def runN12 : ProgRun := runN12At 91
 
 theorem runN12_facts :
-    runN12.final = [.ok, .ok, .ok, .err .io, .err .writeZero, .err .writtenTooMuch, .panic .rowSlice] := by decide
-
-/-- C19 "no call panics" for programs with the stream writer on EVERY sink, arguments in range (false: N12) -/
-def stream_no_panic_statement : Prop :=
-  ∀ (E : Codec) (Z : ZCodec) (c : Cfg) (beh : SinkBehaviour) (steps : List Step) (fin : PFinal),
-    c.WellFormed → c.Small → (∀ s ∈ steps, s.inRange) → fin.inRange →
-    (runProg E Z c beh steps fin).results.any anyPanic = false ∧ anyPanic (runProg E Z c beh steps fin).final = false
-
-theorem stream_no_panic_counterexample : ¬ stream_no_panic_statement := by
-  intro h
-  have := (h toyCodec toyZf (animatedCfg { width := 2, height := 1 } 2 0) { writeFailAt := some 91, writeOnce := true } []
-    (.intoStream 4 [.set (.dim 1 1), .write [1], .flush, .write [2], .flush, .write [3]] .finish)
-    (by decide) (by decide) (by decide) (by decide)).2
-  revert this; decide
+    runN12.final = [.ok, .ok, .ok, .err .io, .err .writeZero, .err .writtenTooMuch, .ok, .ok] ∧
+    runN12.state.sink.iendAttempts = 1 ∧
+    ((List.range 300).all fun n => !anyPanic (runN12At n).final) = true := by decide
 
 end Png.Enc
